@@ -14,7 +14,7 @@ LEVEL = "model_checking"
 TECHNIQUE = "(a) breadth-first explicit-state search over constructor / encode / decode / discard histories over pairs and triples of command classes with a differential oracle (same operation alone); (b) preemption-bounded exhaustive enumeration of thread schedules at source-line granularity under a sys.settrace + semaphore-baton scheduler owning real threads"
 RULE = ("(a) pool of 10 classes chosen to collide (6/10/12/16-byte CDBs, inherited layout, constructors that raise after touching shared state, "
         "mutable arguments); operations new(X, 2 argument variants), new-invalid(X), X.unmarshall_cdb, X.marshall_cdb, repeat-marshal with the same "
-        "caller objects, deep copy of a live command (then modified), display helpers (print_cdb / print / repr) of a command, a caller-owned segment dictionary re-used after the caller changed its kind (also after a refused construction), first-use in 13 fresh processes (see C02), two commands over one caller-owned buffer with the first discarded and garbage-collected (WRITE, WRITE SAME, EXTENDED COPY inline data, ATA PASS-THROUGH 12/16 x all 256 ATA command codes x both directions), del; BFS with de-duplication on a digest of class-level state + live objects, all pairs to depth 4 (thorough 5) and all "
+        "caller objects, deep copy of a live command (then modified), display helpers (print_cdb / print / repr) of a command, a caller-owned segment dictionary re-used after the caller changed its kind (also after a refused construction), first-use in 13 fresh processes (see C02), the same battery of builds and decodes in 6 interpreters differing only in PYTHONHASHSEED, two commands over one caller-owned buffer with the first discarded and garbage-collected (WRITE, WRITE SAME, EXTENDED COPY inline data, ATA PASS-THROUGH 12/16 x all 256 ATA command codes x both directions), del; BFS with de-duplication on a digest of class-level state + live objects, all pairs to depth 4 (thorough 5) and all "
         "triples to depth 3 (thorough 4); in every state every live object and every class's codec is compared with what the same call yields "
         "alone; decode histories A,B,A over every ordered pair of 20 response kinds in a fresh process (result for A identical before and after B). (b) 2 threads (thorough: also 3), each 'c=X(..); bytes(c.cdb); X.unmarshall_cdb; X.marshall_cdb; len(c.datain)', every ordered "
         "pair of pool classes, plus decoder threads (standard INQUIRY, VPD 83h, MODE SENSE(10), REPORT LUNS, RTPG, READ FULL STATUS, READ ELEMENT STATUS, sense) in all ordered pairs, all schedules with at most 1 preemption at every traced source line of the library (thorough: also all schedules with at most 2 preemptions at function-entry granularity for the pairs over 5 classes of different CDB lengths, and 2 preemptions at "
@@ -91,7 +91,7 @@ def partitions(tier):
     parts += [["daba", n] for n in DECODER_CASES if DECODER_CASES[n] is not None]
     from vf.props import c02
     parts += [["first", i] for i in range(c02.N_FIRST)]
-    parts += [["discard"]]
+    parts += [["discard"], ["hashseed"]]
     decs = list(THREAD_DECODERS)
     dq = decs if tier != "quick" else ["dec:inquiry_std", "dec:vpd83", "dec:rtpg", "dec:sense", "dec:prfull"]
     for a in dq:
@@ -493,6 +493,63 @@ def switch_points(x):
     return [(i, x.points[i][2]) for i, c in enumerate(x.choices) if c][:4]
 
 
+HASHSEED_CHILD = r"""
+import sys, json, hashlib
+sys.path.insert(0, sys.argv[1])
+sys.path.insert(1, sys.argv[2])
+import os
+os.environ["VF_REPO"] = sys.argv[1]
+from vf.props import c09, c04
+from vf import cmdspace as CS
+out = {}
+for name in c09.POOL:
+    for v in (0, 1):
+        ob, dec, enc = c09.solo(name, v)
+        out["%s/%d" % (name, v)] = hashlib.sha1(repr((ob, sorted(dec.items()), enc)).encode()).hexdigest()
+Inq = CS.get_class("Inquiry")
+for tag, d in (("short", {"t10_vendor_identification": b"ATA", "product_identification": b"QEMU HARDDISK", "product_revision_level": b"2.5+", "version": 6, "cmdque": 1,
+                           "peripheral_device_type": 0, "peripheral_qualifier": 0, "additional_length": 91}),
+               ("exact", {"t10_vendor_identification": b"VENDOR 8", "product_identification": b"PRODUCT-16-BYTES", "product_revision_level": b"REV4", "version": 6, "tpgs": 3,
+                          "peripheral_device_type": 5, "peripheral_qualifier": 1, "additional_length": 91})):
+    try:
+        out["inquiry/" + tag] = bytes(Inq.marshall_datain(dict(d))).hex()
+    except Exception as e:
+        out["inquiry/" + tag] = "raised " + type(e).__name__
+for n, case in sorted(c09.DECODER_CASES.items()):
+    if case is None:
+        continue
+    fmt, data, exp, dec = c04.build(case)
+    out["decode/" + n] = hashlib.sha1(repr(c09.freeze(dec(bytearray(data)))).encode()).hexdigest()
+print(json.dumps(out, sort_keys=True))
+"""
+
+
+def run_hashseed():
+    """'depends only on the command's class and its own arguments': the same battery of builds and decodes in fresh interpreters that
+    differ only in PYTHONHASHSEED (string hash order, set iteration order) gives the same bytes everywhere"""
+    import json
+    import subprocess
+    import sys
+    root = os.path.dirname(os.path.dirname(os.path.dirname(os.path.abspath(__file__))))
+    repo = os.environ.get("VF_REPO", "/repo")
+    res = {}
+    for seed in ("0", "1", "2", "3", "4242", "random"):
+        env = dict(os.environ, PYTHONHASHSEED=seed)
+        p = subprocess.run([sys.executable, "-c", HASHSEED_CHILD, repo, root], capture_output=True, text=True, env=env, timeout=600)
+        if p.returncode != 0:
+            return [("hashseed/child_failed", "PYTHONHASHSEED=%s: %s" % (seed, p.stderr[-400:]))], 0
+        res[seed] = json.loads(p.stdout.strip().splitlines()[-1])
+    out = []
+    ref = res["0"]
+    for seed, r in res.items():
+        for k in ref:
+            if r.get(k) != ref[k]:
+                out.append(("hashseed/differs/%s" % k.split("/")[0], "%s: with PYTHONHASHSEED=%s the library produces %s, with 0 %s (equal inputs, another process)"
+                            % (k, seed, str(r.get(k))[:60], str(ref[k])[:60])))
+                break
+    return out, len(ref) * len(res)
+
+
 def discard_cases():
     out = []
     for name in ("Write10", "Write12", "Write16", "WriteSame10", "WriteSame16"):
@@ -545,6 +602,8 @@ def run_discard(case):
 
 
 def run_case(case):
+    if case[0] == "hashseed":
+        return run_hashseed()[0]
     if case[0] == "discard":
         return run_discard(case[1])
     if case[0] == "first":
@@ -581,6 +640,16 @@ MAXTASKS = 1      # fresh forked worker per partition (the decode histories need
 def run_partition(part, tier, seed):
     acc = Acc(seed)
     b = bounds(tier)
+    if part[0] == "hashseed":
+        case = ["hashseed"]
+        acc.case(case, nontrivial=True, key="hashseed")
+        v, n = run_hashseed()
+        acc.transitions += n
+        acc.traces += 6
+        for k, w in v:
+            acc.violation(k, w, case)
+        acc.outcome(("hashseed", tuple(k for k, _ in v)))
+        return acc
     if part[0] == "discard":
         for c in discard_cases():
             case = ["discard", c]
